@@ -353,7 +353,7 @@ def schema(grammar, rnd, n, numeric_nts=(), with_numeric=True):
             else:
                 f = Q(q1, t1, "x", EXI("n", AND(SMT(A("=", A("str.len", V("x")), A("str.to.int", V("n")))),
                                                   SMT(A(cmpop, A("str.to.int", V("n")), I(k))))))
-            fam = "numeric"
+            fam = ["numeric-exists-count", "numeric-forall-count", "numeric-exists-q-count", "numeric-exists-len"][shape]
         out.append((fam, set_num_bounds(f)))
     return out
 
